@@ -699,6 +699,7 @@ func init() {
 				}
 			}
 		}
+		cliEqualsLibrary(c, buildCLI(c), false, &fails)
 		c.FactsVerdict(fails > 0)
 	})
 }
